@@ -106,7 +106,13 @@ func chansMergeRun[T any](r *R, enc func(int) T, dec func(T) int) {
 				r.Violate("C12", fmt.Sprintf("chans-merge/panic/arity-%s", arityClass(arity)), "chans.Merge panicked: %v", p)
 			}
 		}()
+		orig := append([]<-chan T(nil), roIns...)
 		chans.Merge(out, roIns...)
+		for i := range orig {
+			if roIns[i] != orig[i] {
+				r.Violate("C12", "argument-slice-modified/chans.Merge", "chans.Merge changed element %d of the slice it was called with", i)
+			}
+		}
 		mergeReturned = true
 		mergeRetSeq = sim.Seq()
 		sim.Self().Label = ""
@@ -265,7 +271,13 @@ func replicateRun[T any](r *R, enc func(int) T, dec func(T) int) {
 				r.Violate("C12", "replicate/panic", "chans.Replicate panicked (%d destinations): %v", nd, p)
 			}
 		}()
+		orig := append([]chan<- T(nil), wo...)
 		chans.Replicate(src, wo...)
+		for i := range orig {
+			if wo[i] != orig[i] {
+				r.Violate("C12", "argument-slice-modified/chans.Replicate", "chans.Replicate changed element %d of the slice it was called with", i)
+			}
+		}
 		returned = true
 		sim.Self().Label = ""
 		if !srcClosed {
@@ -374,6 +386,14 @@ func streamMergeScenario(r *R) {
 			ins = append(ins[:at:at], append([]stream.Stream[int]{stream.Empty[int]()}, ins[at:]...)...)
 		}
 	}
+	origIns := append([]stream.Stream[int](nil), ins...)
+	defer func() {
+		for i := range origIns {
+			if ins[i] != origIns[i] {
+				r.Violate("C12", "argument-slice-modified/stream.Merge", "stream.Merge changed element %d of the slice it was called with", i)
+			}
+		}
+	}()
 	m := stream.Merge(ins...)
 	cs := &Calls{r: r}
 	seen := map[int]bool{}
